@@ -69,6 +69,11 @@ def gen_cases(rng, n, tier):
     out = []
     _TOK_RNG[0] = rng
     for _ in range(n):
+        if rng.random() < 0.04:
+            # object history: the same Num objects are rendered, negated, copied ... and compared again and again; only the
+            # comparison results are judged here
+            out.append(N.num_history(rng, maxl=2, judge='cmp'))
+            continue
         a = _rand_frac(rng, maxl)
         if rng.random() < 0.08:
             a = Fraction(0)
@@ -336,7 +341,7 @@ def main(tier, seed):
     }
     assumptions = ['Fraction order is the oracle; NaN compares unordered and takes the right branch',
                    'program-level attribution: only divergences at a step whose command is a plain push with an area are judged here; others are left to C01/C06']
-    minimum = {'pairs': (n, 5000), 'cmp:N': (hist.get('cmp:N', 0), 100), 'cmp:L': (hist.get('cmp:L', 0), 500),
+    minimum = {'pairs': (n, 5000), 'object histories': (hist.get('object_history', 0), 300), 'cmp:N': (hist.get('cmp:N', 0), 100), 'cmp:L': (hist.get('cmp:L', 0), 500),
                'program comparisons': (ncmp, 1000), 'comparisons in compiled programs': (chist.get('compiled_comparisons', 0), 150),
                'fraction operands at ?': (phist.get('branch:?:frac:left', 0) + phist.get('branch:?:frac:right', 0), 100),
                'negative fractions within 1 of the count': (phist.get('negative_fraction_within_1_of_count', 0), 10)}
